@@ -357,6 +357,42 @@ pub fn spaces(tier: Tier) -> Vec<Space<'static>> {
             other => acc.vio("order:signed-zero-differs-from-exact-value", || json!({"a": "text -0", "b": tb, "expected": format!("{:?}", exp), "observed": format!("{:?}", other.map_err(|p| panic_class(&p)))})),
         }
     }));
+    // the same relation where a JSONPath predicate compares two numbers of a document:
+    // {"a": n, "b": m} with `$.a == $.b`, `$.a < $.b`, `$.a > $.b`, `$.a != $.b`, `$.a <= $.b` through path_match
+    {
+        let preds: std::sync::Arc<Vec<(&'static str, jsonb::jsonpath::JsonPath<'static>)>> = std::sync::Arc::new(
+            ["$.a == $.b", "$.a < $.b", "$.a > $.b", "$.a != $.b", "$.a <= $.b", "$.a >= $.b"].iter().map(|t| (*t, jsonb::jsonpath::parse_json_path(t.as_bytes()).expect("documented predicate parses"))).collect(),
+        );
+        sp.push(Space::new("order-b64xb64 through JSONPath predicates ($.a == $.b, <, >, !=, <=, >= on {a: n, b: m})", n as u64, move |i, acc| {
+            let a = b64[i as usize];
+            for b in b64.iter() {
+                let exp = num_cmp(&a, b);
+                let doc = enc(&RVal::obj(vec![("a", RVal::Num(a)), ("b", RVal::Num(*b))]));
+                for (k, (text, path)) in preds.iter().enumerate() {
+                    acc.eval();
+                    let want = match k { 0 => exp == Ordering::Equal, 1 => exp == Ordering::Less, 2 => exp == Ordering::Greater, 3 => exp != Ordering::Equal, 4 => exp != Ordering::Greater, _ => exp != Ordering::Less };
+                    match guard(|| jsonb::path_match(&doc, path.clone())) {
+                        Ok(Ok(got)) if got == want => {}
+                        other => acc.vio("order:jsonpath-comparison-differs-from-exact-value", || json!({"a": format!("{:?}", a), "b": format!("{:?}", b), "predicate": text, "expected": want, "observed": format!("{:?}", other.map_err(|p| panic_class(&p)))})),
+                    }
+                }
+            }
+        }));
+    }
+    // every B64 integer through serde_json: serde_json::Value::from(u64 / i64) -> jsonb::Value keeps the exact integer
+    {
+        sp.push(Space::new("codec-b64 integers through the conversion from serde_json::Value", n as u64, move |i, acc| {
+            let nmod = b64[i as usize];
+            let sv = match nmod { RNum::U(u) => serde_json::Value::from(u), RNum::I(v) => serde_json::Value::from(v), RNum::F(_) => return };
+            acc.eval();
+            acc.nontrivial += 1;
+            let want = match nmod { RNum::I(v) if v >= 0 => RNum::U(v as u64), other => other };
+            match guard(|| { let v = jsonb::Value::from(&sv); let o = jsonb::Value::from(sv.clone()); (crate::conv::from_value_raw(&v), crate::conv::from_value_raw(&o)) }) {
+                Ok((x, y)) if x == RVal::Num(want) && y == RVal::Num(want) => {}
+                other => acc.vio("codec:from-serde_json-integer-not-exact", || json!({"number": format!("{:?}", nmod), "observed": format!("{:?}", other.map_err(|p| panic_class(&p)))})),
+            }
+        }));
+    }
     // the same relation through documents: jsonb::compare on the encoded numbers (bare and as the
     // only element of an array), and the number's way through the Value encoder and from_slice
     {
